@@ -175,16 +175,18 @@ class CentralizedTaskingEngine(TaskingEngine):
         of one task, but observe it in the background of another task. The pair was observed, so it
         must not also be reported as missed.
         """
-        observed = {(ob.sensor_id, ob.target_id) for ob in self._observations}
+        # [NOTE]: the saved list also holds the misses of earlier steps that are waiting to be written
+        #   to the database, so records are matched on their epoch as well.
+        observed = {(ob.sensor_id, ob.target_id, ob.julian_date) for ob in self._observations}
         self._missed_observations = [
             miss
             for miss in self._missed_observations
-            if (miss.sensor_id, miss.target_id) not in observed
+            if (miss.sensor_id, miss.target_id, miss.julian_date) not in observed
         ]
         self._saved_missed_observations = [
             miss
             for miss in self._saved_missed_observations
-            if (miss.sensor_id, miss.target_id) not in observed
+            if (miss.sensor_id, miss.target_id, miss.julian_date) not in observed
         ]
 
     def calculateRewards(self) -> None:
